@@ -40,19 +40,32 @@ META = {
 
 
 # ------------------------------------------------------------------------------ H1 build_response
-def _exc(kind, code, msg):
+class MyAdmissionError(admission.AdmissionError):
+    pass
+
+
+class MyPermanentError(kopf.PermanentError):
+    pass
+
+
+class MyTemporaryError(kopf.TemporaryError):
+    pass
+
+
+def _exc(kind, code, msg, sub=False):
+    """sub: a user-defined subclass of the kopf error class (it is as specific as its base)."""
     if kind == 0:
         return None
     if kind == 1:
-        return admission.AdmissionError(msg, code=code)
+        return (MyAdmissionError if sub else admission.AdmissionError)(msg, code=code)
     if kind == 2:
-        return kopf.PermanentError(msg)
+        return (MyPermanentError if sub else kopf.PermanentError)(msg)
     if kind == 3:
-        return kopf.TemporaryError(msg, delay=1)
-    return ValueError(msg)
+        return (MyTemporaryError if sub else kopf.TemporaryError)(msg, delay=1)
+    return (IndexError if sub else ValueError)(msg)
 
 
-def h_response(n: int, k0: int, k1: int, k2: int, c0: int, c1: int, c2: int, nw: int) -> bool:
+def h_response(n: int, k0: int, k1: int, k2: int, c0: int, c1: int, c2: int, nw: int, u0: bool, u1: bool, u2: bool) -> bool:
     """
     pre: 0 <= n <= 3 and 0 <= nw <= 2
     pre: 0 <= k0 <= 4 and 0 <= k1 <= 4 and 0 <= k2 <= 4
@@ -64,7 +77,7 @@ def h_response(n: int, k0: int, k1: int, k2: int, c0: int, c1: int, c2: int, nw:
     kinds, codes = [k0, k1, k2][:n], [c0, c1, c2][:n]
     outcomes = {}
     for i in range(n):
-        e = _exc(kinds[i], codes[i], 'm%d' % i)
+        e = _exc(kinds[i], codes[i], 'm%d' % i, [u0, u1, u2][i])
         outcomes['h%d' % i] = execution.Outcome(final=True, exception=e)
     warnings = ['w%d' % i for i in range(nw)]
     resp = admission.build_response(request={'request': {'uid': 'u'}}, outcomes=outcomes, warnings=warnings, jsonpatch=[])
